@@ -1,4 +1,6 @@
 import Mps.Judge
+import MpsProps.C01alg
+import MpsProps.AlgGen
 /-
   C01 — property theorems: the algebra layer (MpsProps/C01alg.lean) is imported here once merged.
 -/
